@@ -208,16 +208,22 @@ NOT_YET = {}
 
 
 COMMON_NOTE = ('; every second shard does its work on a worker thread, after the main thread has imported pycel '
-               '(nothing promised may depend on the importing thread)')
+               '(nothing promised may depend on the importing thread); of every eight shards two log at DEBUG level, one '
+               'keeps python\'s initial logging configuration, one turns the warnings of pycel\'s own modules into errors '
+               '(nothing promised may depend on the logging level or on warnings not being errors)')
 SUITE = ("; the last shard also runs the repository's own test-suite with the monitors of vp.suitemon attached (read containment and edges, span balance, pass bound, cached values against a fresh compile of the file) and turns what they see for this property into violations")
+BIG = '; one case per four shards (quick) runs on a generated workbook of about 1 900 cells (vp.wbgen.big: a 90-140 cell chain, a 1000 cell block beyond column Z, a 300-600 row table, a dozen sheets, 32 000 character text, integers beyond 2**53)'
 EXTRA_NOTES = {
     'C01': '; a share of the histories runs on the workbooks shipped with the repository (primed so that every value '
            'is computed); recalculate / value_tree_str / export_to_gexf are called in between and only the values of '
-           'later evaluate calls are judged' + SUITE,
-    'C03': '; also the shipped workbooks, sequences of saves of one model to one base name, floats with 16-17 digits',
+           'later evaluate calls are judged; four revisions of one workbook in one process whose defined names point '
+           'elsewhere' + BIG + SUITE,
+    'C03': '; also the shipped workbooks, sequences of saves of one model to one base name, floats with 16-17 digits' + BIG,
     'C04': '; also read traces of the shipped workbooks (OFFSET / INDIRECT cells exempt: computed references); builds '
-           'that fail part-way with cells built before and after them, edges judged when each evaluate returns' + SUITE,
-    'C06': '; acyclic twins also hold reference-valued cells (=OFFSET(x,0,0))' + SUITE,
+           'that fail part-way with cells built before and after them, edges judged when each evaluate returns; a cell '
+           'whose build failed evaluated again; a kept side branch evaluated after trim_graph' + BIG + SUITE,
+    'C06': '; acyclic twins also hold reference-valued cells (=OFFSET(x,0,0)); one loop that needs more than 32 767 '
+           'passes' + SUITE,
     'C05': '; also the shipped workbooks, acyclic workbooks saved with iterative calculation on, and a comparison '
            'of the in-process reference values with those of a forked child of a process that never saw a workbook '
            '(state that outlives a workbook)',
@@ -229,10 +235,12 @@ EXTRA_NOTES = {
            'also an output and has no dependants listed first',
     'C09': '; fault kinds also: NameError inside a plugin, unknown function named like a python keyword or like a '
            'constant of the math module; repair constants include 0; a write to a former precedent after the repair; '
-           'faults injected into the shipped workbooks' + SUITE,
+           'faults injected into the shipped workbooks; faults at build time (a text that does not parse, a missing '
+           'sheet); forty attempts on one failing chain' + SUITE,
     'C12': '; also workbooks saved with iterative calculation on, stored results computed by a pristine process, the '
            'shipped workbooks with one stored result altered in the file, formula_cells() listed first, two cells '
-           'failing for the same reason',
+           'failing for the same reason; the formulas of one sheet as outputs (sheet=); a second run on the same '
+           'compiler; the call asked to raise first' + BIG,
 }
 
 
